@@ -26,7 +26,7 @@ ASSUMPTIONS = ["equality with the fresh network: 1e-9 relative (l2) for direct s
 FLOORS = {"quick": {"cases_held": 350, "history_ops": 4000, "mon_unseeded_sensitivity": 300, "mon_reset": 5000},
           "thorough": {"cases_held": 4000, "history_ops": 50000, "mon_unseeded_sensitivity": 4000, "mon_reset": 60000}}
 KINDS = ["compliance", "compliance3d", "cg-ilu", "cg-mg", "dynamic", "eig-sparse", "eig-dense", "soe", "sc-linsolve", "general-const",
-         "aggregation", "filterconv-overhang", "block-loads"]
+         "general-nonsym", "aggregation", "filterconv-overhang", "block-loads"]
 TIMEOUT_CASE = 300
 
 
@@ -65,7 +65,7 @@ def build(kind, par):
     net = pym.Network()
     tol = 1e-9
     if kind in ("compliance", "cg-ilu", "cg-mg", "dynamic", "eig-sparse", "soe", "sc-linsolve", "general-const", "filterconv-overhang",
-                "block-loads", "compliance3d"):
+                "block-loads", "compliance3d", "general-nonsym"):
         if kind == "compliance3d":
             d = pym.DomainDefinition(par["nx"], par["ny"], 2)
         else:
@@ -135,6 +135,14 @@ def build(kind, par):
         f = np.ones(ndof)
         su = net.append(pym.LinSolve([sA, S("f", f)]))
         return net, [sx], [su, sA], tol, gen
+    if kind == "general-nonsym":
+        # non-symmetric system matrix: the adjoint solve uses the wrapper's separate adjoint database
+        em = par["em"]
+        sA = net.append(pym.AssembleGeneral(sx, domain=d, element_matrix=em, bc=bc, bcdiagval=2.0))
+        f = np.ones(ndof)
+        su = net.append(pym.LinSolve([sA, S("f", f)]))
+        sc = net.append(pym.EinSum([su, S("g", np.arange(ndof) / ndof)], expression="i,i->"))
+        return net, [sx], [sc, su], tol, gen
     if kind == "filterconv-overhang":
         sf = net.append(pym.FilterConv(sx, domain=d, radius=1.8, xmin_bc="edge", ymax_bc=0.0))
         so = net.append(pym.OverhangFilter(sf, domain=d, direction=par["dir"]))
@@ -184,6 +192,9 @@ def params(kind, rng):
         em = rng.standard_normal((8, 8))
         p["em"] = em @ em.T + 8 * np.eye(8)
         p["C"] = sps.diags(rng.uniform(0.1, 1, d.nnodes * 2)).tocsc()
+    if kind == "general-nonsym":
+        em = rng.standard_normal((8, 8)) * 0.5
+        p["em"] = em + 8 * np.eye(8)
     if kind == "eig-dense":
         n = p["n"]
         Q = np.linalg.qr(rng.standard_normal((n, n)))[0]
